@@ -544,13 +544,16 @@ def oracle_affine(ctx, meshes, tasks, res):
     return n_bad
 
 
-def oracle_brick(ctx, model_ok=True):
+def oracle_brick(ctx, model_ok=True, deep=False):
     rng = ctx.rng
     tasks = []
-    top = 3 if ctx.tier == 'quick' else 5
+    top = 3 if (ctx.tier == 'quick' and not deep) else 5
     for ty in ('tri', 'quad', 'tet', 'hex'):
         sizes = [(1, 1, 1), (2, 1, 1), (1, 2, 1), (1, 1, 2), (2, 3, 2), (3, 2, 1)]
         sizes += [(rng.randint(1, top), rng.randint(1, top), rng.randint(1, top)) for _ in range(3)]
+        if deep:      # the generator's text is not pinned: long / thin / larger boxes as well
+            sizes += [(7, 1, 1), (1, 7, 1), (1, 1, 7), (4, 3, 5), (5, 4, 3), (3, 5, 4), (6, 6, 1)]
+            sizes += [(rng.randint(1, 6), rng.randint(1, 6), rng.randint(1, 6)) for _ in range(6)]
         for nx, ny, nz in sizes:
             lx, ly, lz = nx * rng.randint(1, 3), ny * rng.randint(1, 3), nz * rng.randint(1, 3)
             tasks.append({'id': len(tasks), 'kind': 'brick', 'type': ty, 'nx': nx, 'ny': ny,
@@ -631,6 +634,58 @@ def oracle_brick(ctx, model_ok=True):
                           'brick_count / brick_positive / brick_sum (oracle on implementation)',
                           found_input=True, signature={'kind': 'brick', 'type': t['type']},
                           what='generate_brick: ' + '; '.join(problems))
+    return len(tasks), n_bad
+
+
+def oracle_random_mesh(ctx):
+    """generate_random_mesh (Delaunay mesh of a jittered lattice, made positive by
+    make_elements_positive): the elements tile the convex hull of the nodes -- every element
+    positive, linear = centroid (simplices are affine), sum = hull volume (scipy ConvexHull,
+    independent of femio), default calculate_element_metrics() does not raise."""
+    rng = ctx.rng
+    n = 4 if ctx.tier == 'quick' else 16
+    tasks = []
+    for i in range(n):
+        ty = 'tet' if i % 2 == 0 else 'tri'
+        tasks.append({'id': len(tasks), 'kind': 'random_mesh', 'type': ty,
+                      'n_point': rng.choice([12, 27, 40] if ty == 'tet' else [9, 16, 30]),
+                      'lx': rng.choice([1.0, 2.5, 0.03]), 'ly': rng.choice([1.0, 0.7, 40.0]),
+                      'lz': rng.choice([1.0, 3.0]), 'noise_scale': rng.choice([0.3, 1.0]),
+                      'np_seed': rng.randrange(2 ** 31)})
+    res = run_impl(ctx, tasks, 'random_mesh')
+    n_bad = 0
+    for t in tasks:
+        r = res[t['id']]
+        problems = []
+        if 'crash' in r:
+            problems.append(r['crash'])
+        else:
+            lin = [hexq(x) for x in r['linear']]
+            cen = [hexq(x) for x in r['centroid']]
+            hull = hexq(r['hull'])
+            scale = hull / max(1, len(lin))
+            if any(v <= 0 for v in lin):
+                problems.append(f'{sum(1 for v in lin if v <= 0)} non-positive element(s)')
+            if any(abs(a - b) > Fraction(1, 10 ** 9) * scale + Fraction(1, 10 ** 7) * abs(a)
+                   for a, b in zip(lin, cen)):
+                problems.append('linear and centroid modes disagree on a simplex')
+            if abs(sum(lin) - hull) > Fraction(1, 10 ** 9) * hull:
+                problems.append(f'sum of the elements {float(sum(lin))} != convex hull {float(hull)}')
+            if r.get('default_metrics_raises'):
+                problems.append('calculate_element_metrics() raises on the generated mesh')
+        ctx.case(['random_mesh', t['type'], t['n_point'], t['lx'], t['ly'], t['lz'], t['noise_scale'], t['np_seed']],
+                 sample={'stream': 'generate_random_mesh tiles the hull of its nodes', **{k: t[k] for k in
+                         ('type', 'n_point', 'noise_scale')}, 'n_elements': r.get('n_elements')})
+        ctx.count('random_mesh:' + t['type'])
+        if problems:
+            n_bad += 1
+            ctx.violation('impl-violation', {k: t[k] for k in ('type', 'n_point', 'lx', 'ly', 'lz', 'noise_scale',
+                                                               'np_seed')},
+                          'all elements positive, modes agree, sum = volume of the convex hull of the nodes',
+                          problems, 'C11_closed_form_tet / C11_vol_affine_tet + tiling (oracle on implementation)',
+                          found_input=True, signature={'kind': 'random-mesh', 'type': t['type']},
+                          what='generate_random_mesh: ' + '; '.join(problems))
+    ctx.notes['random_mesh_oracle'] = {'cases': len(tasks), 'failures': n_bad}
     return len(tasks), n_bad
 
 
@@ -1163,18 +1218,29 @@ def history_stream(ctx, model_ok, deep=False):
             groups.setdefault(call, []).append((16 * t['id'] + k, test))
     bad = []
     if model_ok and items:
-        text = HEADER + '\n'.join(defs) + '\n' + grouped_cases(groups) + \
-            'Goal True. idtac "@@ failing". Abort.\n' \
-            'Eval vm_compute in map fst (filter (fun c => negb (snd c)) cases).\n'
-        rc, out, err = ctx.coq_eval('HistoryCases', text, timeout=900)
-        bad = failing(out, 'failing') if rc == 0 else None
-        if bad is None:
-            ctx.log('HistoryCases.v failed to compile:', err[-600:])
-            ctx.violation('tie-broken', {'stage': 'HistoryCases.v'}, 'case file compiles', err[-300:],
-                          'option-history stream', found_input=False,
-                          signature={'kind': 'case-file', 'file': 'HistoryCases'})
-            bad = []
-            n_bad += 1
+        # at most ~400 comparisons per generated file
+        chunks, cur, cnt = [], {}, 0
+        for call, its in groups.items():
+            if cnt and cnt + len(its) > 400:
+                chunks.append(cur)
+                cur, cnt = {}, 0
+            cur[call] = its
+            cnt += len(its)
+        chunks.append(cur)
+        for ci, ch in enumerate(chunks):
+            text = HEADER + '\n'.join(defs) + '\n' + grouped_cases(ch) + \
+                'Goal True. idtac "@@ failing". Abort.\n' \
+                'Eval vm_compute in map fst (filter (fun c => negb (snd c)) cases).\n'
+            rc, out, err = ctx.coq_eval('HistoryCases' + (str(ci) if ci else ''), text, timeout=900)
+            part = failing(out, 'failing') if rc == 0 else None
+            if part is None:
+                ctx.log('HistoryCases.v failed to compile:', err[-600:])
+                ctx.violation('tie-broken', {'stage': 'HistoryCases.v'}, 'case file compiles', err[-300:],
+                              'option-history stream', found_input=False,
+                              signature={'kind': 'case-file', 'file': 'HistoryCases'})
+                n_bad += 1
+            else:
+                bad += part
     byid = {t['id']: t for t in tasks}
     for j in bad:
         t = byid[j // 16]
@@ -1227,12 +1293,28 @@ def main(ctx):
     ]
     # 1. translate
     tie_ok, model = True, None
+    brick_tie = 'translated'
     try:
         model, consumed = c11_kernels.translate(str(lib.REPO))
         ctx.sources = consumed
         lib.write_if_changed(lib.COQ / 'C11' / 'gen' / 'Kernels.v', c11_kernels.emit(model))
-        templates, bconsumed = c11_brick.translate(str(lib.REPO))
-        ctx.sources.update(bconsumed)
+        # brick generator: T (templates + layout statements pinned) -> templates T, layout H ->
+        # reference templates (all H); below T the exact correspondence of generate_brick runs deeper
+        brick_tie = 'translated'
+        try:
+            templates, bconsumed = c11_brick.translate(str(lib.REPO))
+            ctx.sources.update(bconsumed)
+        except c11_brick.TranslateError as e:
+            ctx.log('brick generator outside the pinned form (degraded tie + deeper correspondence):', e)
+            try:
+                templates, bconsumed = c11_brick.translate(str(lib.REPO), strict_layout=False)
+                ctx.sources.update(bconsumed)
+                brick_tie = 'templates translated, layout by correspondence'
+            except c11_brick.TranslateError as e2:
+                templates = c11_brick.REFERENCE
+                brick_tie = 'reference templates, tied by correspondence only'
+                e = f'{e}; {e2}'
+            ctx.notes['brick_translator'] = {'tie': brick_tie, 'error': str(e)}
         lib.write_if_changed(lib.COQ / 'C11' / 'gen' / 'Brick.v', c11_brick.emit(templates))
     except (c11_kernels.TranslateError, c11_brick.TranslateError, SyntaxError) as e:
         tie_ok = False
@@ -1370,8 +1452,10 @@ def main(ctx):
     # 5. oracles on the implementation
     ctx.log(f'entry-point correspondence: {len(tasks)} cases, {n_corr_bad} tie / {n_prop_bad} property disagreements')
     n_aff_bad = oracle_affine(ctx, meshes, tasks, res)
-    n_brick, n_brick_bad = oracle_brick(ctx, model_ok)
+    n_brick, n_brick_bad = oracle_brick(ctx, model_ok, deep=brick_tie != 'translated')
     ctx.log(f'brick: {n_brick} cases, {n_brick_bad} failures')
+    n_rand, n_rand_bad = oracle_random_mesh(ctx)
+    ctx.log(f'random meshes: {n_rand} cases, {n_rand_bad} failures')
     n_motion, n_motion_bad = motion_stream(ctx, model_ok)
     ctx.log(f'same-object motion: {n_motion} cases, {n_motion_bad} failures')
     n_hist, n_hist_bad = history_stream(ctx, model_ok, deep)
@@ -1391,7 +1475,7 @@ def main(ctx):
     ctx.notes['impl_property_failures'] = {'assembly': n_prop_bad, 'closed_form': n_aff_bad,
                                            'brick': n_brick_bad, 'same_object_motion': n_motion_bad,
                                            'option_history': n_hist_bad, 'farfield': n_far_bad,
-                                           'graded': n_graded_bad}
+                                           'graded': n_graded_bad, 'random_mesh': n_rand_bad}
     # 6. broken tie / proof without a failing input
     found_any = len(ctx.violations) > n_viol_before or ctx.known
     if not tie_ok and not found_any:
